@@ -13,7 +13,6 @@ use super::*;
 #[verifier::external_body] #[verifier::reject_recursive_types(K)] #[verifier::reject_recursive_types(V)] pub struct FxHashMap<K, V> { k: core::marker::PhantomData<(K, V)> }
 #[verifier::external_body] pub struct PendingStreamsQueue { x: u8 }
 #[verifier::external_body] pub struct StreamRecv { x: u8 }
-#[verifier::external_body] pub struct Send { x: u8 }
 #[derive(Copy, Clone, PartialEq, Eq)] pub struct VarInt(pub u64);
 impl vstd::std_specs::cmp::PartialEqSpecImpl for VarInt { open spec fn obeys_eq_spec() -> bool { true } open spec fn eq_spec(&self, o: &VarInt) -> bool { *self == *o } }
 impl VarInt {
@@ -29,6 +28,26 @@ impl TransportError {
     pub fn STREAM_LIMIT_ERROR(_r: &'static str) -> (r: Self) ensures r.code == Code::STREAM_LIMIT_ERROR { TransportError { code: Code::STREAM_LIMIT_ERROR } }
     pub fn FRAME_ENCODING_ERROR(_r: &'static str) -> (r: Self) ensures r.code == Code::FRAME_ENCODING_ERROR { TransportError { code: Code::FRAME_ENCODING_ERROR } }
 }
+/// the send half of a stream as far as the glue code here looks at it; `Send::reset` / `SendBuffer::unacked` are proved in units send_stream / send_buffer
+#[derive(Copy, Clone, PartialEq, Eq)] pub enum SendState { Ready, DataSent { finish_acked: bool }, ResetSent }
+pub struct SendBuffer { pub un: u64 }
+impl SendBuffer { pub fn unacked(&self) -> (r: u64) ensures r == self.un { self.un } }
+pub struct Send { pub state: SendState, pub pending: SendBuffer }
+impl Send {
+    #[verifier::external_body] pub fn reset(&mut self) ensures final(self).state == SendState::ResetSent, final(self).pending == old(self).pending { unimplemented!() }
+}
+pub struct ClosedStream { pub _private: () }
+pub struct Retransmits { pub reset_stream: Vec<(super::code::StreamId, VarInt)> }
+/// what the map holds for `id` once a lazily created Send has been materialised (None: no such stream)
+pub uninterp spec fn send_abs(m: FxHashMap<super::code::StreamId, Option<Box<Send>>>, id: super::code::StreamId) -> Option<Send>;
+/// `self.state.send.get_mut(&self.id).map(get_or_insert_send(max_send_data))`
+#[verifier::external_body]
+pub fn send_entry<'a>(m: &'a mut FxHashMap<super::code::StreamId, Option<Box<Send>>>, id: super::code::StreamId, max_send_data: VarInt) -> (r: Option<&'a mut Send>)
+    ensures match r {
+        Some(st) => send_abs(*old(m), id) == Some(*st) && send_abs(*final(m), id) == Some(*final(st)),
+        None => send_abs(*old(m), id).is_none() && *final(m) == *old(m),
+    }
+{ unimplemented!() }
 /// the reassembly buffer as far as StreamsState's own code looks at it
 pub struct Assembler { pub br: u64 }
 impl Assembler { pub fn bytes_read(&self) -> (r: u64) ensures r == self.br { self.br } }
@@ -373,6 +392,31 @@ impl StreamsState {
 //@ extract quinn-proto/src/connection/streams/mod.rs :: struct Streams
 //@ replace super::State => State
 //@ end
+//@ extract quinn-proto/src/connection/streams/mod.rs :: struct SendStream
+//@ replace super::State => State
+//@ end
+
+impl<'a> SendStream<'a> {
+//@ extract quinn-proto/src/connection/streams/mod.rs :: impl SendStream<'a>::fn reset
+//@ props C05 C11
+//@ ret res
+//@ replace ws:self .state .send .get_mut(&self.id) .map(get_or_insert_send(max_send_data)) => send_entry(&mut self.state.send, self.id, max_send_data)
+//@ contract
+        requires
+            // StreamsState invariant: the connection-wide count of unacknowledged bytes includes this stream's
+            send_abs(old(self).state.send, old(self).id) matches Some(s) ==> s.state is ResetSent || old(self).state.unacked_data >= s.pending.un,
+        ensures match res {
+            // the stream is reset once: its outstanding bytes leave the connection-wide count exactly once, and one RESET_STREAM is queued
+            Ok(()) => send_abs(old(self).state.send, old(self).id) matches Some(s0) && !(s0.state is ResetSent)
+                && final(self).state.unacked_data == old(self).state.unacked_data - s0.pending.un
+                && (send_abs(final(self).state.send, old(self).id) matches Some(s1) && s1.state is ResetSent)
+                && final(self).pending.reset_stream@ == old(self).pending.reset_stream@.push((old(self).id, error_code)),
+            // unknown stream or redundant call: nothing changes
+            Err(_) => final(self).state.unacked_data == old(self).state.unacked_data && final(self).pending.reset_stream@ == old(self).pending.reset_stream@
+                && (send_abs(old(self).state.send, old(self).id) matches Some(s0) ==> s0.state is ResetSent && send_abs(final(self).state.send, old(self).id) == Some(s0)),
+        }
+//@ end
+}
 
 impl<'a> Streams<'a> {
 //@ extract quinn-proto/src/connection/streams/mod.rs :: impl Streams<'a>::fn open
